@@ -4,11 +4,12 @@ open Proto Framing DriverFraming
 
 /-- messages before the first source error / oversized message, and the expected final code -/
 def okPrefix (c : EncCase) : List Bytes × Option Nat :=
-  let rec go : List (SrcEv Bytes) → List Bytes × Option Nat
+  let rec go : List (SrcEv EMsg) → List Bytes × Option Nat
     | [] => ([], none)
     | .pending :: r => go r
     | .err st :: _ => ([], some st.code)
-    | .item m :: r =>
+    | .item (_, true) :: _ => ([], some 13)     -- `Encoder::encode` fails: INTERNAL, nothing of the item is sent
+    | .item (m, false) :: r =>
       let p := if c.cfg.comp.isSome then (tableCodec c.tab).cz .gzip m else m
       let over : Bool := match c.cfg.maxSize with | some l => decide (p.length > l) | none => false
       if over then ([], some 11) else
@@ -111,14 +112,11 @@ oversized one yields OUT_OF_RANGE (even when only its 5-byte prefix has arrived)
 def handle (case obs : List String) : String × String :=
   if case.head? = some "lim.gen" then handleLimGen case obs else
   if case.head? = some "lim.srv" ∨ case.head? = some "lim.cli" then handleLim case obs else
-  match model case with
+  match parseCase case with
   | none => bad
-  | some m =>
-    let v := match case with
-      | "penc" :: _ | "enc" :: _ =>
-        match parseEncCase case with
-        | none => "fail:bad-case"
-        | some c =>
+  | some fc =>
+    match fc with
+      | .enc c =>
           let (ms, e) := okPrefix c
           let flag : UInt8 := if c.cfg.comp.isSome then 1 else 0
           let expected := Spec.Framing.frames (ms.map (fun it =>
@@ -126,15 +124,14 @@ def handle (case obs : List String) : String × String :=
           let delivered := (obsData (beforeStatus obs)).flatten
           let st := firstStatus obs
           let expCode : Option Nat := match e with | some k => some k | none => if c.cfg.server then some 0 else none
-          verdict [("no-panic", !obs.any isBad),
+          (encColumn c obs,
+           verdict [("no-panic", !obs.any isBad), ("no-lost-wakeup", noLostWakeup obs),
                    ("earlier-messages-delivered-before-status", delivered == expected),
                    ("status-code", (st.bind codeOfTok) == expCode),
                    ("nothing-sent-after-status", e.isNone || c.cfg.server == false ||
-                       (obsData obs).flatten == expected)]
-      | "pdec" :: _ | "dec" :: _ =>
-        match parseDecCase case with
-        | none => "fail:bad-case"
-        | some c =>
+                       (obsData obs).flatten == expected)])
+      | .dec c =>
+          let m := runDec c
           -- walk headers only (an oversized declared length need not be followed by a payload):
           -- the frames before the first oversized / incomplete one, and whether one is oversized
           let limit := c.cfg.maxSize.getD (4 * 1024 * 1024)
@@ -144,11 +141,9 @@ def handle (case obs : List String) : String × String :=
               && frs.all (fun fp => fp.1 == 0 || c.cfg.enc.isSome)
               && within.all (fun m => m.head? != some 255)
           let st := firstStatus obs
-          if !allValid then verdict [("no-panic", !obs.any isBad), ("no-oversize-reservation", !obs.contains "a1")]
-          else verdict [("no-panic", !obs.any isBad),
+          if !allValid then (m, verdict [("no-panic", !obs.any isBad), ("no-lost-wakeup", noLostWakeup obs), ("no-oversize-reservation", !obs.contains "a1")])
+          else (m, verdict [("no-panic", !obs.any isBad), ("no-lost-wakeup", noLostWakeup obs),
                    ("no-oversize-reservation", !obs.contains "a1"),
                    ("accepted-iff-within-limit", obsMsgs (beforeStatus obs) == within),
-                   ("oversized-refused-with-out-of-range", !over || st == some "e11:tooLargeDec")]
-      | _ => "fail:bad-case"
-    (m, v)
+                   ("oversized-refused-with-out-of-range", !over || st == some "e11:t")])
 end DriverC06
